@@ -25,6 +25,15 @@ def gen_ops(rng, fsz, ended, nfr, kind):
         if used + s > budget and not ended:
             break
         ops.append(("P", s, loop)); used += s
+    if kind == "restart" and ops:
+        # end the player in the middle of a frame, start again: the new session must begin with the first frame
+        cut = rng.randrange(1, min(len(ops), 12) + 1)
+        first = [o for o in ops[:cut] if o[0] == "P"]
+        if first and sum(o[1] for o in first) % max(1, fsz[0]) == 0:
+            first.append(("P", rng.randrange(1, max(2, fsz[0])), loop))
+        again = [("P", o[1], o[2]) for o in ops[cut:cut + 40] if o[0] == "P"]
+        ops = first + [("E",)] + again
+        return ops
     if kind == "stop" and ops:
         k = rng.randrange(0, len(ops))
         ops.insert(k, ("S",))
@@ -59,7 +68,7 @@ def main():
                 rate = rng.choice((4000, 4000, 8000, 11025))
                 cases.append((m, rate, fmt, rng.randrange(40, 160), None))
     ndis = 0
-    opsum = {"P": 0, "R": 0, "S": 0}
+    opsum = {"P": 0, "R": 0, "S": 0, "E": 0}
     endhits = 0
     for (m, rate, fmt, nfr, fixed_ops) in cases:
         path = os.path.join(data, m)
@@ -75,7 +84,7 @@ def main():
         fsz = [len(f[1]) // 2 if f[1] != "-" else 0 for f in frames]
         if not frames:
             continue
-        kinds = ["full", "noloop", "stop"] if fixed_ops is None else [None]
+        kinds = ["full", "noloop", "stop", "restart"] if fixed_ops is None else [None]
         for kind in kinds * (1 if tier == "quick" or fixed_ops else 3):
             ops = fixed_ops if fixed_ops is not None else gen_ops(rng, fsz, ended, nfr, kind)
             if not ops:
